@@ -131,6 +131,10 @@ def law_family():
             Aff(x, Op('+', y, C(1))), Aff(x, x), Aff(Mem(x), y), Aff(Mem(x, 32, fs), Op('+', Mem(y), z)), Aff(Mem(Op('+', x, y), 8, gs), b), Aff(b, Sl(x, 0, 8)), Aff(f, Sl(x, 31, 32)),
             Aff(Mem(x, 32, Sl(z, 0, 16)), y), Aff(x, Mem(Mem(y))), Aff(Mem(Mem(x)), y), Aff(Mem(x), Op('+', Mem(x), y)), Aff(Mem(x, 32, fs), Mem(x, 32, fs)), Aff(Mem(x, 8), Sl(Mem(x, 8), 0, 8)),
             Aff(Mem(Op('+', x, C(4))), Op('^', Mem(Op('+', x, C(4))), Mem(x)))]
+    # operands of one shape whose inner constants differ only in width (key_expr of a constant ignores the width): canonize must keep both
+    for op in ('&', '|', '+'):
+        s8, s32 = Op('<<', x, Op('+', C(0xF9, 8), C(0x0B, 8))), Op('<<', x, Op('+', C(0xF9), C(0x0B)))
+        fam += [Op(op, s8, s32), Op(op, s32, s8), Op(op, Cond(Op('+', C(0xFF, 8), C(1, 8)), x, y), Cond(Op('+', C(0xFF), C(1)), x, y)), Op(op, x, x), Op(op, x, y, x)]
     # no assignments to slices here (ExprAff rewrites them in its constructor: C11 decides that)
     out, seen = [], set()
     for e in fam:
